@@ -29,7 +29,7 @@ def main():
         return 2
     summary = []
     try:
-        b = sh('bash', '-c', 'cd /repo && GOFLAGS=-mod=mod GOPROXY=off GOSUMDB=off go build ./... && go build -tags verif ./...')
+        b = sh('bash', '-c', 'cd /repo && GOFLAGS=-mod=mod GOPROXY=off GOSUMDB=off GOTOOLCHAIN=local go build ./... && GOTOOLCHAIN=local go build -tags verif ./...')
         if b.returncode != 0:
             print('does not build with the change:', b.stderr[-800:])
             return 2
